@@ -144,7 +144,7 @@ def main():
             "name": "bacon-verif",
             "path": "/verif/harness",
             "serves_properties": sorted(BUILT.keys()),
-            "kind_free_text": "Rust harness linked against /repo's working tree (path dependency, rebuilt by ./check on every invocation): instrumented closures record call logs and enforce evaluation budgets; monitors check trace invariants, reference models and closed-form ground truth over seeded, structured and exhaustive workloads; panics, integer overflow and debug assertions are on and caught",
+            "kind_free_text": "Rust harness linked against /repo's working tree (path dependency, rebuilt by ./check on every invocation): instrumented closures record call logs and enforce evaluation budgets; monitors check trace invariants, reference models and closed-form ground truth over seeded, structured and exhaustive workloads; panics, integer overflow and debug assertions are on and caught; every check repeats its quick tier in a second build of the same harness without debug assertions and overflow checks (the profile downstream users ship) and reports what that build observed",
         }],
         "checks": checks,
         "not_applicable": na,
